@@ -54,6 +54,23 @@ CLAIMED["C08"] = dict(
     technique="Lean 4 proof of refinement to a read spec + regenerated open-mode table (decide) + differential correspondence with byte hashes",
     design="7 C08")
 
+CLAIMED["C09"] = dict(
+    text="Kernel-checked refinement (mutual induction on the runtime tree, no size bound): appendOne_spec/appendKids_spec/C09_union/"
+         "C09_save — for EVERY file holding the encoding of a well-formed tree F and EVERY well-formed runtime tree R with the same "
+         "root name, a whole-root append / append-over rewrites exactly that root group into the encoding of a well-formed tree T' "
+         "with info(T' at p) = combine mode (info(F at p)) (info(R at p)) at every path: file nodes unchanged (append) or replaced "
+         "(append-over), runtime-only nodes added at their path with their whole branch, file-only nodes kept also below replaced "
+         "nodes (C09_existing_kept/_new_added/_replaced/_nothing_else); C09_root_md(+_fresh) — root metadata follow the same rule per "
+         "entry name; C09_other_roots — other trees and the header untouched. Since T' is again encode of a well-formed tree the "
+         "statement iterates over sequences of appends.",
+    note="PARTIAL for targeted appends (inner node x tree option, emdpath variants, foreign node/root under an emdpath): the whole "
+         "30-way dispatch of write.py is modelled branch for branch and compared with the implementation on every kind of target by "
+         "the correspondence (thousands of appends per thorough run), but theorems are proved for the whole-root append only. "
+         "compatKids is the explicit 'common name space' domain: no runtime child named like an object of the body it lands in, "
+         "scratch name _tmp_<name> free, old children not named like objects of the replacing body. Bodies opaque.",
+    technique="Lean 4 refinement proof to a path-wise union spec + differential correspondence over (file tree, runtime tree) pairs",
+    design="7 C09")
+
 NOT_YET = {}
 
 def main():
